@@ -188,4 +188,94 @@ for _n in ("P2-rename-locals", "P3-log-lines", "P5-ending-if-instead-of-try", "P
             _v["expect"].update({"C02": "ok", "C03": "ok"})
             _v["props"] = list(_v["expect"])
 
+# ---------------------------------------------------------------- C04
+v("13-ignore_lock-default-false", [(P, "        ignore_lock: bool = True,\n", "        ignore_lock: bool = False,\n")], {"C04": "R04.2"})
+v("13b-start_num-passes-ignore_lock-false", [(P, "                    group_name=group_name,\n                    end_callback=self._end_callback,", "                    group_name=group_name,\n                    ignore_lock=False,\n                    end_callback=self._end_callback,")], {"C04": "R04.2"})
+v("14-func-without-kwargs", [(P, "                coroutine = func(*args, **kwargs)\n", "                coroutine = func(*args)\n")], {"C04": "R04.1s"})
+v("15-apply-args-kwargs-swapped", [(P, "                    func,\n                    args,\n                    kwargs,\n                    num,\n", "                    func,\n                    kwargs,\n                    args,\n                    num,\n")], {"C04": "R04.3w"})
+v("15b-range-num-minus-1", [(P, "        if kwargs is None:\n            kwargs = {}\n        for i in range(num):", "        if kwargs is None:\n            kwargs = {}\n        for i in range(num - 1):")], {"C04": "R04.1s"})
+v("15c-break-after-first-failure", [(P, """                    repr(args),
+                    repr(kwargs),
+                )
+                # TODO: Consider returning instead of continuing
+                # https://github.com/daniil-berg/asyncio-taskpool/issues/5
+                continue""", """                    repr(args),
+                    repr(kwargs),
+                )
+                break""")], {"C04": "R04.1"})
+v("15d-second-func-call", [(P, "                coroutine = func(*args, **kwargs)\n", "                coroutine = func(*args, **kwargs)\n                coroutine.close()\n                coroutine = func(*args, **kwargs)\n")], {"C04": "R04.1"})
+v("15e-handler-narrowed", [(P, "                coroutine = func(*args, **kwargs)\n            except Exception as e:", "                coroutine = func(*args, **kwargs)\n            except TypeError as e:")], {"C04": "R04.1"})
+v("15f-start-two-spawners", [(P, "        meta_tasks.add(create_task(self._start_num(num, group_name)))\n", "        meta_tasks.add(create_task(self._start_num(num, group_name)))\n        if num > 10:\n            meta_tasks.add(create_task(self._start_num(num, group_name)))\n")], {"C04": "R04.3"})
+v("15g-spawner-not-registered", [(P, "        meta_tasks.add(create_task(self._start_num(num, group_name)))\n", "        create_task(self._start_num(num, group_name))\n")], {"C04": "R04.3"})
+v("24-return-to-continue-in-cancel-handler", [(P, """                    i,
+                    num,
+                )
+                coroutine.close()
+                return
+
+    def apply(""", """                    i,
+                    num,
+                )
+                coroutine.close()
+                continue
+
+    def apply(""")], {"C04": "R04.1"})
+v("P8-return-to-break", [(P, """                    i,
+                    num,
+                )
+                coroutine.close()
+                return
+
+    def apply(""", """                    i,
+                    num,
+                )
+                coroutine.close()
+                break
+
+    def apply(""")], {"C04": "ok", "C01": "ok", "C02": "ok"})
+v("P-drop-coroutine-close", [(P, """                    i,
+                    num,
+                )
+                coroutine.close()
+                return
+
+    def apply(""", """                    i,
+                    num,
+                )
+                return
+
+    def apply(""")], {"C04": "ok", "C01": "ok", "C02": "ok"})
+
+# ---------------------------------------------------------------- C05
+v("16-star-constants-swapped", [(P, "            args_iter,\n            1,\n", "            args_iter,\n            2,\n"), (P, "            kwargs_iter,\n            2,\n", "            kwargs_iter,\n            1,\n")], {"C05": "R05.1"})
+v("16b-star_function-branches-swapped", [("internals/helpers.py", "    if arg_stars == 1:\n        return function(*arg)\n    if arg_stars == 2:  # noqa: PLR2004\n        return function(**arg)", "    if arg_stars == 2:  # noqa: PLR2004\n        return function(*arg)\n    if arg_stars == 1:\n        return function(**arg)")], {"C05": "R05.1"})
+v("17-list-arg_iter", [(P, "        semaphore = Semaphore(num_concurrent)\n", "        arg_iter = list(arg_iter)\n        semaphore = Semaphore(num_concurrent)\n")], {"C05": "R05.2"})
+v("18-semaphore-plus-one", [(P, "        semaphore = Semaphore(num_concurrent)\n", "        semaphore = Semaphore(num_concurrent + 1)\n")], {"C05": "R05.3"})
+v("19-start-before-acquire", [(P, """                semaphore_acquired = await semaphore.acquire()
+                await self._start_task(
+                    coroutine,
+                    group_name=group_name,
+                    ignore_lock=True,
+                    end_callback=release_cb,
+                    cancel_callback=cancel_callback,
+                )
+""", """                await self._start_task(
+                    coroutine,
+                    group_name=group_name,
+                    ignore_lock=True,
+                    end_callback=release_cb,
+                    cancel_callback=cancel_callback,
+                )
+                semaphore_acquired = await semaphore.acquire()
+""")], {"C05": "R05.2i"})
+v("20-callback-before-release", [(P, "            map_semaphore.release()\n            await execute_optional(actual_end_callback, args=(task_id,))\n", "            await execute_optional(actual_end_callback, args=(task_id,))\n            map_semaphore.release()\n")], {"C05": "R05.4"})
+v("21-consumer-handler-narrowed", [(P, "                coroutine = star_function(func, next_arg, arg_stars=arg_stars)\n            except Exception as e:", "                coroutine = star_function(func, next_arg, arg_stars=arg_stars)\n            except TypeError as e:")], {"C05": "R05.2i"})
+v("21b-consumer-ignore_lock-dropped", [(P, "                    ignore_lock=True,\n", "                    ignore_lock=False,\n")], {"C05": "R05.6"})
+v("21c-release-in-loop", [(P, "                    end_callback=release_cb,\n                    cancel_callback=cancel_callback,\n                )\n            except CancelledError:", "                    end_callback=release_cb,\n                    cancel_callback=cancel_callback,\n                )\n                semaphore.release()\n            except CancelledError:")], {"C05": "viol"})
+v("21d-end-callback-not-wrapped", [(P, "                    end_callback=release_cb,\n", "                    end_callback=end_callback,\n")], {"C05": "R05.3"})
+v("21e-prefetch-next", [(P, "        for i, next_arg in enumerate(arg_iter):\n", "        arg_iter = iter(arg_iter)\n        first = next(arg_iter, None)\n        for i, next_arg in enumerate(arg_iter):\n")], {"C05": "R05.2"})
+v("21f-semaphore-per-iteration", [(P, "            semaphore_acquired = False\n            try:\n                coroutine = star_function", "            semaphore_acquired = False\n            semaphore = Semaphore(num_concurrent)\n            try:\n                coroutine = star_function")], {"C05": "viol"})
+v("21g-map-semaphore-wrong-arg", [(P, "            semaphore, actual_end_callback=end_callback\n", "            self._enough_room, actual_end_callback=end_callback\n")], {"C05": "viol"})
+v("P9-drop-semaphore-release-in-handler", [(P, "                coroutine.close()\n                if semaphore_acquired:\n                    semaphore.release()\n                return", "                coroutine.close()\n                return")], {"C05": "ok", "C02": "ok"})
+
 VARIANTS = V
